@@ -109,8 +109,10 @@ def why_clock(hi, mi, tsi):
 
 # ------------------------------------------------------------------ C05
 
-YEARS = list(range(1990, 2030)) if WIDE else [1990, 1999, 2000, 2016, 2024, 2029]
-DAYS = list(range(1, 32)) if WIDE else [1, 9, 12, 28, 29, 30, 31]
+YEARS = list(range(1990, 2030)) if WIDE else [1990, 2000, 2029]
+DAYS = list(range(1, 32)) if WIDE else [1, 12, 29, 31]
+MONTHS = list(range(1, 13)) if WIDE else [2, 3, 12]
+NMO = len(MONTHS)
 NY, ND = len(YEARS), len(DAYS)
 
 
@@ -144,16 +146,16 @@ def date_check(d, m, y, h, mi):
 
 def ob_date(di: int, m: int, yi: int, hi: int, mi: int) -> bool:
     """
-    pre: 0 <= di < ND and 1 <= m <= 12 and 0 <= yi < NY and 0 <= hi < NH and 0 <= mi < NM
-    pre: WIDE or ((hi == 2 and mi == 2) or (di == 1 and m == 3))
+    pre: 0 <= di < ND and 0 <= m < NMO and 0 <= yi < NY and 0 <= hi < NH and 0 <= mi < NM
+    pre: WIDE or ((hi == 2 and mi == 2) or (di == 1 and m == 1 and yi == 1 and (hi == 0 or hi == 7) and mi != 2))
     post: _
     """
     with NoTracing():
-        return date_check(DAYS[_pick(di, ND)], _pick(m, 13), YEARS[_pick(yi, NY)], HOURS[_pick(hi, NH)], MINUTES[_pick(mi, NM)])[0]
+        return date_check(DAYS[_pick(di, ND)], MONTHS[_pick(m, NMO)], YEARS[_pick(yi, NY)], HOURS[_pick(hi, NH)], MINUTES[_pick(mi, NM)])[0]
 
 
 def why_date(di, m, yi, hi, mi):
-    return date_check(DAYS[di], m, YEARS[yi], HOURS[hi], MINUTES[mi])[1]
+    return date_check(DAYS[di], MONTHS[m], YEARS[yi], HOURS[hi], MINUTES[mi])[1]
 
 
 # ------------------------------------------------------------------ C20
